@@ -688,8 +688,32 @@ def seeded_programs():
                                                           ("store", j, ("op", "Add2", [("load", j), ("int", 1)])),
                                                           ("if", ("op", "EqU", [("load", j), ("int", 2)]), ("continue",), els)),
                                                          ("ret", ("load", j))]), [j], []), 6))
+    # an early exit in a branch, a variable stored only on the other path and read after the join (the directed variants put a comment
+    # right behind the exit statement: see `exit_comment_variants`)
+    for ei, ex in enumerate([("reject",), ("ret", ("int", 0)), ("err",)]):
+        kv = Var(U)
+        out.append((f"early-exit-{ei}", Program("app", ("seq", [("if", ("op", "Gt", [("txn", "Fee"), ("int", 5000)]), ex, ("store", kv, ("txn", "Fee"))),
+                                                              ("op", "PopU", [("load", kv)]),
+                                                              ("ret", ("op", "Ge", [("load", kv), ("int", 0)]))]), [kv], []), 6))
+        kv2 = Var(U)
+        out.append((f"early-exit-else-{ei}", Program("app", ("seq", [("if", ("op", "Le", [("txn", "Fee"), ("int", 5000)]),
+                                                                    ("store", kv2, ("txn", "Fee")), ex),
+                                                                   ("op", "PopU", [("load", kv2)]),
+                                                                   ("ret", ("op", "Ge", [("load", kv2), ("int", 0)]))]), [kv2], []), 6))
     k = Var(U)
     out.append(("store-load", Program("app", ("seq", [("store", k, ("txn", "Fee")), ("if", ("load", k), ("approve",), None), ("reject",)]), [k], []), 8))
+    return out
+
+
+def exit_comment_variants(p: Program):
+    """for the `early-exit` programs: the exit statement of the If arm becomes Seq(exit, Comment) -- a comment BEHIND a statement that never
+    completes, in a position whose typing the comment does not change (the If is not the last statement of its sequence)"""
+    out = []
+    iff = p.main[1][0]
+    for text in ("x", "after the exit\nsecond line"):
+        arm = 2 if iff[2][0] in ("reject", "ret", "err") else 3
+        new_if = tuple(("seq", [iff[arm], ("comment", text, None)]) if j == arm else x for j, x in enumerate(iff))
+        out.append(Variant("comment-stmt", clone(p, main=("seq", [new_if] + p.main[1][1:])), {"text": text, "after_exit": True, "arm": arm}))
     return out
 
 
@@ -950,6 +974,8 @@ def run(tier: str) -> int:
                 distinct.add(base[1])
             seeded = not name.startswith("gen")
             vs = variants(p, r, "thorough" if ((tier == "thorough" and not name.startswith("gensampled")) or seeded) else "quick", ranges, stats)
+            if name.startswith("early-exit"):
+                vs += exit_comment_variants(p)
             if name == "store-load" and ver == 8:
                 # directed: a comment of 600 lines (the compiler recurses once per statement)
                 vs.append(Variant("comment-stmt", clone(p, main=("seq", [("comment", "\n" * 600, None)] + p.main[1])), {"text": "\n" * 600, "index": 0}))
